@@ -87,6 +87,7 @@ def big_clouds(tier):
 def spline_cases(draw):
     case = draw(cloud_cases())
     case["mindist"] = draw(st.sampled_from([None, None, 1e-6, 1e-3, 0.1]))
+    case["weighted"] = draw(st.sampled_from([False, False, True]))
     return case
 
 
@@ -98,7 +99,7 @@ def spline_cases_tier(tier):
     def bigger(draw):
         cloud = draw(gen.clouds(min_n=1, max_n=draw(st.sampled_from([15, 40, 100, 300]))))
         n = len(cloud["cells"])
-        return dict(cloud=cloud, data=[draw(gen.data_values(n))], shape=[n], mindist=draw(st.sampled_from([None, None, 1e-3])))
+        return dict(cloud=cloud, data=[draw(gen.data_values(n))], shape=[n], mindist=draw(st.sampled_from([None, None, 1e-3])), weighted=draw(st.sampled_from([False, False, True])))
 
     return bigger()
 
@@ -112,7 +113,10 @@ def check_spline(case, ctx):
     if not kappa <= KAPPA_MAX:
         ctx.skip("ill_conditioned")
     sp = quiet(vd.Spline) if md is None else quiet(vd.Spline, mindist=md_abs)
-    quiet(sp.fit, (e, n), d)
+    if case.get("weighted"):
+        quiet(sp.fit, (e, n), d, 1.0 + (np.arange(d.size) % 5).reshape(d.shape))
+    else:
+        quiet(sp.fit, (e, n), d)
     pred = np.asarray(sp.predict((e, n)))
     ctx.check(pred.shape == d.shape, "prediction shape %s, data shape %s", pred.shape, d.shape)
     scale = float(np.max(np.abs(d)))
@@ -121,7 +125,7 @@ def check_spline(case, ctx):
     if not err <= tol:
         raise Violation("Spline(mindist=%r) fitted to %d distinct points does not reproduce its data: max error %.3e, tolerance 64*kappa*eps*max|d| = %.3e (kappa %.3e, max|d| %.3e)"
                         % (md, d.size, err, tol, kappa, scale))
-    ctx.label("kappa1e%d" % int(math.log10(max(kappa, 1))), "mindist" if md else "nomindist", "n>=80" if d.size >= 80 else "n<80")
+    ctx.label("kappa1e%d" % int(math.log10(max(kappa, 1))), "mindist" if md else "nomindist", "n>=80" if d.size >= 80 else "n<80", "weighted" if case.get("weighted") else "unweighted")
     ctx.nt(d.size >= 4 and nonconstant(case["data"][0]))
 
 
